@@ -284,10 +284,11 @@ impl LayerFlags {
 // @end
 
 // @section std_extra
-/// assumed contract of std's Option::filter (vstd has none): the result is the argument or None
+/// assumed contract of std's Option::filter (vstd has none): the result is the argument, and only if the predicate said yes
 pub assume_specification<T, P>[ core::option::Option::<T>::filter ](o: Option<T>, p: P) -> (r: Option<T>)
     where P: core::ops::FnOnce(&T) -> bool + core::marker::Destruct, T: core::marker::Destruct,
-    ensures r is Some ==> r == o,
+    requires o is Some ==> p.requires((&o->0,)),
+    ensures r is Some ==> r == o && p.ensures((&o->0,), true),
 ;
 // @end
 
@@ -951,9 +952,10 @@ pub assume_specification<T, U, D, F>[ core::option::Option::<T>::map_or_else ](o
 // @section reader_exact
 impl AseReader {
     /// AseReader::read_bytes(count) (`take(count).read_to_end(..)` + length check; the buffer grows with the bytes that
-    /// arrive - nothing is reserved from the declared size): same ASSUMED reader contract as the primitives.
-    /// Kani cannot execute std's read_to_end symbolically (CBMC runs out of memory on a 4-byte cursor), so for this
-    /// one primitive the contract is exercised only by the bounded obligations x_truncation / x_readers / x_total_load
+    /// arrive - nothing is reserved from the declared size). This is the contract that unit `pixel_readers` PROVES for the
+    /// real function over the trusted model of a byte source (v_read_bytes), restated in this unit's data() / pos() vocabulary
+    /// (rest() == data().subrange(pos(), len)). Kani cannot execute std's read_to_end symbolically (CBMC runs out of memory
+    /// on a 4-byte cursor); the bounded obligations x_truncation / x_readers / x_total_load execute it
     #[verifier::external_body]
     pub fn read_bytes(&mut self, count: usize) -> (r: Result<Vec<u8>>)
         ensures final(self).data() == old(self).data(), 0 <= old(self).pos() <= old(self).data().len(),
